@@ -274,6 +274,53 @@ func (m *monC20) OnStep(r *Runner, st *Step) {
 			r.Violate("C20.c", "delegations-by-delegator", fmt.Sprintf("query-only %v reference-only %v", trimList(a), trimList(b)))
 			return
 		}
+		// per (delegator, validator), paginated with limit 1 and unpaginated; and the single-record query
+		for _, v := range s.StValOrder {
+			var wantV []string
+			for _, pk := range s.DelOrder {
+				if pk.Del == da && pk.Val == v {
+					wantV = append(wantV, pk.Del+"|"+pk.Val+"|"+pk.Denom)
+				}
+			}
+			sort.Strings(wantV)
+			for _, lim := range []uint64{0, 1} {
+				var gotV []string
+				var key []byte
+				failed := false
+				for i := 0; i < 100; i++ {
+					req := &alliancetypes.QueryAlliancesDelegationByValidatorRequest{DelegatorAddr: da, ValidatorAddr: v}
+					if lim > 0 {
+						req.Pagination = &query.PageRequest{Limit: lim, Key: key}
+					}
+					rv, err := r.QS.AlliancesDelegationByValidator(ctx, req)
+					if err != nil {
+						failed = true
+						if len(wantV) > 0 {
+							r.Violate("C20.c", "delegations-by-validator-error:"+m.listingErrClass(s, err.Error()), err.Error())
+							if r.failed() {
+								return
+							}
+						}
+						break
+					}
+					for _, x := range rv.Delegations {
+						gotV = append(gotV, x.Delegation.DelegatorAddress+"|"+x.Delegation.ValidatorAddress+"|"+x.Delegation.Denom)
+					}
+					if lim == 0 || rv.Pagination == nil || len(rv.Pagination.NextKey) == 0 {
+						break
+					}
+					key = rv.Pagination.NextKey
+				}
+				if failed {
+					break
+				}
+				sort.Strings(gotV)
+				if a, b := diffMultiset(gotV, wantV); len(a)+len(b) > 0 {
+					r.Violate("C20.c", fmt.Sprintf("delegations-by-validator:limit%d", lim), fmt.Sprintf("delegator %s validator %s: query-only %v reference-only %v", short(da), short(v), trimList(a), trimList(b)))
+					return
+				}
+			}
+		}
 	}
 	// (d) the reported balance is undelegatable, balance+1 is not: one position per step, rotating
 	if n := len(s.DelOrder); n > 0 {
